@@ -125,6 +125,11 @@ inductive SameView : List (List Value × List (Nat × Value)) → List (List Val
   | cons {k : List Value} {s s' : List (Nat × Value)} {V V' : List (List Value × List (Nat × Value))} :
       (∀ i, alGet s i = alGet s' i) → SameView V V' → SameView ((k, s) :: V) ((k, s') :: V')
 
+theorem cellOf_congr (O : Oracles) (q : AggStmt) (i : Nat) (item : AggItem) (key : List Value) {s s' : List (Nat × Value)}
+    (h : ∀ i, alGet s i = alGet s' i) : cellOf O q i item key s = cellOf O q i item key s' := by
+  unfold cellOf
+  cases item.kind <;> simp only [h]
+
 theorem rowOf_congr (O : Oracles) (q : AggStmt) (key : List Value) {s s' : List (Nat × Value)} (h : ∀ i, alGet s i = alGet s' i)
     (l : List (Nat × AggItem)) : rowOf O q key s l = rowOf O q key s' l := by
   induction l with
@@ -132,10 +137,7 @@ theorem rowOf_congr (O : Oracles) (q : AggStmt) (key : List Value) {s s' : List 
   | cons p rest ih =>
     obtain ⟨i, item⟩ := p
     simp only [rowOf, ih]
-    have : cellOf O q i item key s = cellOf O q i item key s' := by
-      unfold cellOf
-      cases item.kind <;> simp only [h]
-    rw [this]
+    rw [cellOf_congr O q i item key h]
 
 theorem havingOk_congr (O : Oracles) (q : AggStmt) (key : List Value) {s s' : List (Nat × Value)} (h : ∀ i, alGet s i = alGet s' i) :
     havingOk O q key s = havingOk O q key s' := by
@@ -162,22 +164,35 @@ theorem resultRows_congr (O : Oracles) (q : AggStmt) {V V' : List (List Value ×
     | panic e => rfl
     | oracleMissing e => rfl
 
-theorem checkRows_congr (O : Oracles) (q : AggStmt) {V V' : List (List Value × List (Nat × Value))} (h : SameView V V') :
-    (V.foldlM (fun (_ : Unit) (x : List Value × List (Nat × Value)) => do
-      let _ ← rowOf O q x.1 x.2 (enumFrom 0 q.items)
-      pure ()) () : Outcome Unit) =
-    (V'.foldlM (fun (_ : Unit) (x : List Value × List (Nat × Value)) => do
-      let _ ← rowOf O q x.1 x.2 (enumFrom 0 q.items)
-      pure ()) () : Outcome Unit) := by
+theorem sameView_get {V V' : List (List Value × List (Nat × Value))} (h : SameView V V') :
+    V.length = V'.length ∧ ∀ (n : Nat) (g g' : List Value × List (Nat × Value)), V[n]? = some g → V'[n]? = some g' →
+      g.1 = g'.1 ∧ ∀ i, alGet g.2 i = alGet g'.2 i := by
   induction h with
-  | nil => rfl
+  | nil => exact ⟨rfl, fun n g g' hg => by simp at hg⟩
   | @cons k s s' V V' hl _ ih =>
-    simp only [List.foldlM_cons, rowOf_congr O q k hl, bind, Outcome.bind, pure]
-    cases rowOf O q k s' (enumFrom 0 q.items) with
-    | ok row => exact ih
-    | error e => rfl
-    | panic e => rfl
-    | oracleMissing e => rfl
+    refine ⟨by simp [ih.1], ?_⟩
+    intro n g g' hg hg'
+    cases n with
+    | zero =>
+      simp only [List.getElem?_cons_zero, Option.some.injEq] at hg hg'
+      subst hg; subst hg'
+      exact ⟨rfl, hl⟩
+    | succ n =>
+      simp only [List.getElem?_cons_succ] at hg hg'
+      exact ih.2 n g g' hg hg'
+
+/-- the column pass (`extract_result_rows_by_column`) reads `group_values` only through keys and lookups -/
+theorem checkRows_congr (O : Oracles) (q : AggStmt) {V V' : List (List Value × List (Nat × Value))} (h : SameView V V') :
+    aggColumns O q V (enumFrom 0 q.items) = aggColumns O q V' (enumFrom 0 q.items) := by
+  obtain ⟨hl, hg⟩ := sameView_get h
+  apply aggColumns_congr hl
+  intro p _ n g g' h1 h2
+  obtain ⟨hk, ha⟩ := hg n g g' h1 h2
+  obtain ⟨k, s⟩ := g
+  obtain ⟨k', s'⟩ := g'
+  simp only at hk ha ⊢
+  subst hk
+  exact cellOf_congr O q p.1 p.2 k ha
 
 theorem sameView_of {V V' : List (List Value × List (Nat × Value))} (hkeys : V.map (·.1) = V'.map (·.1))
     (F : List Value → Nat → Option Value) (hV : ∀ p ∈ V, ∀ i, alGet p.2 i = F p.1 i)
@@ -279,9 +294,7 @@ theorem aggResult_sim2 {O : Oracles} {q : AggStmt} {sf sb : AggState} {S : List 
       rw [hval]
       simp [readCell, gmLookup, gmGet_of_mem hsB.vals hp]
   rw [aggResult_eq, aggResult_eq, checkRows_congr O q hview, resultRows_congr O q hview]
-  cases (publishPercentiles sb).vals.foldlM (fun (_ : Unit) (x : List Value × List (Nat × Value)) => do
-      let _ ← rowOf O q x.1 x.2 (enumFrom 0 q.items)
-      pure ()) () with
+  cases aggColumns O q (publishPercentiles sb).vals (enumFrom 0 q.items) with
   | ok _ =>
     simp only [Outcome.bind]
     cases resultRows O q (publishPercentiles sb).vals [] <;> rfl
